@@ -134,13 +134,18 @@ class C12(runner.Check):
             'probe.deletion', 'probe.external-completed-trial', 'probe.infeasible-completion',
             'restart.clean', 'probe.stopping-trial-present', 'probe.mode.service-serializable', 'probe.mode.service-rebuild',
             'probe.mode.inram-alive', 'probe.mode.inram-rebuilt', 'probe.id-reused-after-delete',
-            'probe.mode.service-default', 'probe.study-recreated', 'probe.mode.inram-designerpolicy']
+            'probe.mode.service-default', 'probe.study-recreated', 'probe.mode.inram-designerpolicy',
+            'probe.completion-missing-an-objective']
 
   def gen(self, rng, idx, tier):
     mode = rng.choice(['service-serializable'] * 4 + ['service-default'] * 2 + ['service-rebuild', 'inram-alive', 'inram-rebuilt', 'inram-designerpolicy'])
     cfg = {'mode': mode, 'backend': rng.choice(['ram', 'ram', 'sqlmem', 'sqlfile']), 'algorithm': 'RECORDING',
            'space': 'int10', 'epoch': simclock.EPOCH + rng.randrange(10**6)}
     cfg['id_rot'] = rng.randrange(len(O.STUDY_IDS))  # which adversarial id the main study carries
+    if mode != 'service-default':
+      # the recording designer does not read metrics: two objectives, and completions that report only
+      # one of them (feasible or infeasible) - a completed trial is a completed trial
+      cfg['metrics'] = rng.choice([1, 1, 2])
     if mode == 'service-default':
       # the production path: DefaultPolicyFactory and the real designers, observed at Designer.update()
       cfg['algorithm'] = rng.choice(['GRID_SEARCH', 'GRID_SEARCH', 'QUASI_RANDOM_SEARCH', 'EAGLE_STRATEGY'])
@@ -160,8 +165,9 @@ class C12(runner.Check):
         ops.append([k, {'study': ss, 'n': rng.choice([1, 1, 2, 3, 4]), 'worker': rng.randrange(3)}])
       elif k == 'CompleteTrial':
         ops.append([k, {'study': ss, 'trial': {'pref': rng.choice(['active', 'active', 'mutable', 'stopping']), 'i': rng.randrange(8)},
-                        'ckind': rng.choice(['final', 'final', 'final', 'infeasible']), 'v': rng.randrange(5),
-                        'reason': rng.choice(['bad', ''])}])
+                        'ckind': rng.choice(['final', 'final', 'final', 'infeasible'] + (
+                            ['partial-final', 'infeasible+final', 'partial-final+infeasible'] if cfg.get('metrics') == 2 else [])),
+                        'v': rng.randrange(5), 'reason': rng.choice(['bad', ''])}])
       elif k == 'CreateTrial':
         ops.append([k, {'study': ss, 'x': rng.randrange(40), 'tkind': rng.choice(['succeeded', 'succeeded', 'plain'])}])
       elif k == 'DeleteTrial':
@@ -306,6 +312,8 @@ class C12(runner.Check):
           res.bump('probe.external-completed-trial')
         if kind == 'CompleteTrial' and out[0] == 'ok' and 'infeasible' in c.get('ckind', ''):
           res.bump('probe.infeasible-completion')
+        if kind == 'CompleteTrial' and out[0] == 'ok' and c.get('ckind', '').startswith('partial'):
+          res.bump('probe.completion-missing-an-objective')
         if kind == 'SuggestTrials' and out[0] == 'ok' and out[2]['error']:
           viol.append(('suggest-failed', f'operation error: {out[2]["error"]}'))
         if viol:
@@ -402,11 +410,17 @@ class C12(runner.Check):
           act = [t for t in supporter.trials if t.status == vz.TrialStatus.ACTIVE]
           if act:
             t = act[op[1]['trial'].get('i', 0) % len(act)]
-            if 'infeasible' in op[1].get('ckind', ''):
-              t.complete(vz.Measurement(), infeasibility_reason='bad')
+            ck = op[1].get('ckind', '')
+            vals = {'m': float(op[1].get('v', 0))}
+            if cfg.get('metrics') == 2 and not ck.startswith('partial'):
+              vals['n'] = 1.0
+            if 'infeasible' in ck:
+              t.complete(vz.Measurement(vals if 'final' in ck else {}), infeasibility_reason='bad')
               res.bump('probe.infeasible-completion')
             else:
-              t.complete(vz.Measurement({'m': float(op[1].get('v', 0))}))
+              t.complete(vz.Measurement(vals))
+            if ck.startswith('partial'):
+              res.bump('probe.completion-missing-an-objective')
         elif kind == 'CreateTrial':
           t = vz.Trial(parameters=O.param_values(cfg.get('space', 'int10'), op[1]['x']))
           if op[1].get('tkind') == 'succeeded':
